@@ -57,6 +57,12 @@ def load_modules():
 
 def _limits():
     resource.setrlimit(resource.RLIMIT_AS, (MEM_LIMIT, MEM_LIMIT))
+    try:
+        # cbmc recurses deeply while converting large SSA expressions (silent SIGSEGV
+        # with the default 8 MB stack on two units)
+        resource.setrlimit(resource.RLIMIT_STACK, (1 << 30, 1 << 30))
+    except Exception:
+        pass
     os.setsid()
 
 
